@@ -295,14 +295,14 @@ func stateWritten(ref *RefReplica, s pb.State) bool {
 	return false
 }
 
-func (c *checker) snapshot(ref *RefReplica, rep reporter) {
+func (c *checker) snapshot(ref *RefReplica, rep reporter) bool {
 	id := ref.ID
 	c.queries++
 	ss, err := c.db.GetSnapshot(id.ShardID, id.ReplicaID)
 	q := fmt.Sprintf("%d/%d GetSnapshot", id.ShardID, id.ReplicaID)
 	if err != nil {
 		c.fail(rep, q, err)
-		return
+		return false
 	}
 	if !snapEqual(ss, ref.Snap) {
 		o := "snapshot-mismatch"
@@ -317,7 +317,9 @@ func (c *checker) snapshot(ref *RefReplica, rep reporter) {
 		}
 		rep(o, fmt.Sprintf("%s: index %d term %d file %q, newest saved is index %d term %d file %q",
 			q, ss.Index, ss.Term, ss.Filepath, ref.Snap.Index, ref.Snap.Term, ref.Snap.Filepath))
+		return false
 	}
+	return true
 }
 
 func (c *checker) bootstrap(ref *RefReplica, rep reporter) {
@@ -375,8 +377,13 @@ func (c *checker) list(m *RefStore, pairs []raftio.NodeInfo, rep reporter) {
 
 // full verifies everything the model knows about one replica.
 func (c *checker) full(ref *RefReplica, rep reporter) (pb.State, bool) {
+	// the order of node.replayLog: the snapshot record first, then
+	// ReadRaftState with the index of that record (asking with any other
+	// index is outside the contract)
+	if !c.snapshot(ref, rep) {
+		return pb.State{}, false
+	}
 	st, ok := c.readState(ref, rep)
-	c.snapshot(ref, rep)
 	c.bootstrap(ref, rep)
 	hi := ref.Last + uint64(len(ref.Opt)) + 3
 	c.iterate(ref, ref.Floor+1, hi, math.MaxUint64, rep)
